@@ -150,3 +150,33 @@ Proof.
   do 4 eexists. split; [vm_compute; reflexivity|]. split; [vm_compute; reflexivity|].
   split; [vm_compute; reflexivity|]. split; vm_compute; reflexivity.
 Qed.
+
+(* ---- why the TRCL loop is only sound on tables without CellRef ----------------------------------
+   cell 1 = (CellRef 2) * (+s1) with TRCL +5, cell 2 = +s1 with TRCL +3, s1: x > 0.
+   Cell 1 is treated first: CellRef 2 is copied as cell 3 = the UNMOVED cell 2 moved by +5 and
+   cached as (2, +5) -> 3; then cell 2 is overwritten by its own TRCL.  The cache entry is now
+   stale: cell 2 at x - 5 and cell 3 at x differ at x = 6.  (No CellRef exists before FILL in
+   construct_volume_t4, so this never happens in a conversion.) *)
+Definition ex2_state : xstate :=
+  mkSt [ (1, mkCell 1 1 (TNode true [TRef 2; TSurf 1]) 1 0 None None 0 [5] []);
+         (2, mkCell 2 2 (TSurf 1) 1 0 None None 0 [3] []) ]
+       [(1, SBase 0)] 2 1 [] [].
+
+Definition ex2_after : xstate :=
+  match x_trcl_phase 5 [1; 2] ex2_state with Ok s => s | Err _ => ex2_state end.
+
+Lemma ex2_runs : x_trcl_phase 5 [1; 2] ex2_state = Ok ex2_after.
+Proof. vm_compute. reflexivity. Qed.
+
+Lemma ex2_stale : ~ cache_coherent Z sterm Z x_empty Z.eqb x_inv x_sense ex2_after.
+Proof.
+  intros H.
+  assert (D1 : Den Z sterm Z x_sense ex2_after (act Z Z x_empty x_inv 5 6) (TRef 2) false).
+  { eapply DRef with (cl := mkCell 2 2 (TSurf 4) 1 0 None None 0 [3] []); [reflexivity|].
+    eapply Den_surf_val with (o := STr 3 (SBase 0)); reflexivity. }
+  assert (D2 : Den Z sterm Z x_sense ex2_after 6 (TRef 3) true).
+  { eapply DRef with (cl := mkCell 2 2 (TSurf 2) 1 0 None None 0 [3] []); [reflexivity|].
+    eapply Den_surf_val with (o := STr 5 (SBase 0)); reflexivity. }
+  pose proof (H 2 5 3 eq_refl 6 false D1) as D3.
+  pose proof (proj1 (Den_fun Z sterm Z x_sense ex2_after 6) _ _ D2 _ D3) as E. discriminate E.
+Qed.
